@@ -23,6 +23,55 @@ CONTRACTS = {
 TABLE = os.path.join(build.VERIF, 'rules', 'bufcopy_sites.json')
 
 
+# (struct, pointer member, capacity member): the pointer member addresses a caller-supplied buffer of <capacity member> bytes
+PAIRS = {'br_name_element': ('buf', 'len')}
+
+
+def _pair_dest(F, L, o):
+    """if address operand o is (load X->ptrmember) [+ const], return (key name, X operand, capacity load instruction, const offset)"""
+    base, off = F.addr_of(o)
+    var = []
+    if off is None:
+        p = F.strip_casts(o)
+        if p['k'] != 'i':
+            return None
+        g = F.insts[p['v']]
+        if g['op'] != 'getelementptr' or g.get('off') is None or len(g.get('var') or []) != 1:
+            return None
+        base, off0 = F.addr_of(g['ops'][0])
+        if off0 is None:
+            return None
+        off = off0 + g['off']
+        var = g['var']
+    if base['k'] != 'i' or F.insts[base['v']]['op'] != 'load':
+        return None
+    ld = F.insts[base['v']]
+    p = F.strip_casts(ld['ops'][0])
+    if p['k'] != 'i':
+        return None
+    g = F.insts[p['v']]
+    if g['op'] != 'getelementptr' or g.get('off') is None or g.get('var'):
+        return None
+    X = F.strip_casts(g['ops'][0])
+    xty = F.insts[X['v']]['ty'] if X['k'] == 'i' else (F.f['params'][X['v']]['ty'] if X['k'] == 'a' else '')
+    sn = _struct_of(xty)
+    if sn not in PAIRS or sn not in L.by_name:
+        return None
+    pf, cf = PAIRS[sn]
+    if L.field(sn, pf)[0] != g['off']:
+        return None
+    coff = L.field(sn, cf)[0]
+    caps = []
+    for i in F.insts.values():
+        if i['op'] != 'load':
+            continue
+        q = F.strip_casts(i['ops'][0])
+        if q['k'] == 'i' and F.insts[q['v']]['op'] == 'getelementptr' and not F.insts[q['v']].get('var') \
+                and F.insts[q['v']].get('off') == coff and F.strip_casts(F.insts[q['v']]['ops'][0]) == X:
+            caps.append(i)
+    return sn, pf, caps, off, var
+
+
 def _kind(cal):
     if cal in CONTRACTS:
         return CONTRACTS[cal]
@@ -50,6 +99,7 @@ def enumerate_sites():
         decl = {d['v']: d['var'] for d in F.f.get('declares', [])}
         ordn = {}
         for c in F.calls():
+            roomv = None
             cal = c.get('callee')
             if cal is None:
                 continue
@@ -96,14 +146,25 @@ def enumerate_sites():
                     continue        # not an array member: a scalar/pointer member is never the target of a variable-length copy
                 room, dest = fa[0] + fa[1] - off, '%s.%s' % (sn, fa[2])
             else:
-                continue
+                if L is None:
+                    L = irf.Layouts(unit)
+                pd = _pair_dest(F, L, c['ops'][di])
+                if pd is None:
+                    continue
+                sn, pf, caps, off, var = pd
+                caps = [x for x in caps if F.dominates(x['id'], c['id'])]
+                if not caps:
+                    continue
+                capi = max(caps, key=lambda x: F.order[x['id']])
+                room, dest, roomv = 1 << 40, '%s.%s' % (sn, pf), capi['n']
             if room <= 0:
                 continue
             okey = (fn, dest, cal.split('.')[1] if cal.startswith('llvm.') else cal)
             n = ordn.get(okey, 0)
             ordn[okey] = n + 1
             key = '%s:%s:%s:%s#%d' % (src, fn, okey[2], dest, n)
-            sites.append(dict(src=src, fn=fn, callee=cal, nth=k, key=key, room=room, scale=scale, len=ln, var=var, line=c.get('line'), dest=dest, un=un))
+            sites.append(dict(src=src, fn=fn, callee=cal, nth=k, key=key, room=room, scale=scale, len=ln, var=var, line=c.get('line'), dest=dest, un=un,
+                              roomv=roomv, constoff=off if roomv else 0))
     return sites
 
 
@@ -124,6 +185,7 @@ def enumerate_stores():
             if i['op'] != 'store':
                 continue
             k += 1
+            roomv = None
             o = F.strip_casts(i['ops'][1])
             if o['k'] != 'i':
                 continue
@@ -152,13 +214,23 @@ def enumerate_stores():
                     continue
                 room, dest = fa[0] + fa[1] - off, '%s.%s' % (sn, fa[2])
             else:
-                continue
+                if L is None:
+                    L = irf.Layouts(unit)
+                pd = _pair_dest(F, L, i['ops'][1])
+                if pd is None:
+                    continue
+                sn, pf, caps, off, _v = pd
+                caps = [x for x in caps if F.dominates(x['id'], i['id'])]
+                if not caps:
+                    continue
+                capi = max(caps, key=lambda x: F.order[x['id']])
+                room, dest, roomv = 1 << 40, '%s.%s' % (sn, pf), capi['n']
             okey = (fn, dest)
             n = ordn.get(okey, 0)
             ordn[okey] = n + 1
             key = '%s:%s:store:%s#%d' % (src, fn, dest, n)
-            sites.append(dict(src=src, fn=fn, callee='<store>', nth=k, key=key, room=room, scale=1, len=None, lenconst=i.get('size', 1), var=g['var'],
-                              line=i.get('line'), dest=dest, un=un))
+            sites.append(dict(src=src, fn=fn, callee='<store>', nth=k, key=key, room=room, scale=1, len=None, lenconst=i.get('size', 1) + (off if roomv else 0),
+                              var=g['var'], line=i.get('line'), dest=dest, un=un, roomv=roomv))
     return sites
 
 
@@ -178,7 +250,9 @@ def decide(site):
     F = U.func(site['fn'])
     ln, lty = _opname(F, site['len']) if site['len'] is not None else (None, 'i64')
     hyp = dict(kind='before_call', callee=site['callee'], nth=site['nth'], len=ln, lty=lty, room=site['room'] // site['scale'], var=[],
-               lenconst=site.get('lenconst', 0))
+               lenconst=site.get('lenconst', 0), roomv=site.get('roomv'))
+    if site.get('roomv') and site.get('constoff'):
+        hyp['var'].append((str(site['constoff']), 'i64', 1))
     for (o, sc) in site['var']:
         n, ty = _opname(F, o)
         hyp['var'].append((n, ty, sc))
@@ -215,7 +289,9 @@ def check(chk, rule='fixed-buffer-copy-bounded', jobs=16):
         if err is not None:
             raise err
         seen.add(s['key'])
-        if s['callee'] == '<store>':
+        if s.get('roomv'):
+            inst = '%s: write #%s through %s beyond the capacity held in its companion length member is unreachable' % (s['fn'], s['key'].rsplit('#', 1)[1] + ('s' if s['callee'] == '<store>' else 'c'), s['dest'])
+        elif s['callee'] == '<store>':
             inst = '%s: %s[i] := .. (store #%s) with i beyond the %d bytes left is unreachable' % (s['fn'], s['dest'], s['key'].rsplit('#', 1)[1], s['room'])
         else:
             inst = '%s: %s(%s, .., len) with len > %d bytes left is unreachable' % (s['fn'], s['callee'], s['dest'], s['room'] // s['scale'])
@@ -224,7 +300,7 @@ def check(chk, rule='fixed-buffer-copy-bounded', jobs=16):
             chk.ok(rule, inst, where, 'llvm.assume(len > room) before the call makes the site dead')
         elif s['key'] in frozen:
             chk.violation(rule, inst, where, 'the guards that dominated this write on the reference tree no longer exclude a length larger than the '
-                          'destination (%s, %d bytes left): a longer input overflows it' % (s['dest'], s['room'] // s['scale']), key='%s %s' % (rule, s['key']))
+                          'destination (%s%s): a longer input overflows it' % (s['dest'], '' if s.get('roomv') else ', %d bytes left' % (s['room'] // s['scale'])), key='%s %s' % (rule, s['key']))
         else:
             und.append(s['key'])
     missing = [k for k in frozen if k not in seen]
